@@ -473,6 +473,8 @@ def o_persistence(hist, ss, t0=0.0):
                 out.append(V('persistence', 'before the step ending at t=%r: %s.u[%d]=%g, schedule says %g' %
                              (T, m, int(bad[0]), act[bad[0]], v[bad[0]]), what='status', model=m))
                 return out
+        if T <= t0:
+            continue        # evaluations at the starting instant (initialisation, dispatch of events due at t0): no step ends there
         fa = es.fault_active(events, T, t0)
         for idx, uf in fa.items():
             if idx in rec['uf'] and rec['uf'][idx] != uf:
